@@ -146,4 +146,140 @@ theorem parseTagged_ok : ∀ (fuel : Nat) (d : List U5) (fs : List Field), parse
               simp only [hlen, ↓reduceIte, hr]
             · simp only [interpFields, hi, hint]
 
+/-! ### decimal digits and the human-readable part -/
+
+theorem digitChar_spec : ∀ k, k < 10 → (digitChar k).toNat - 48 = k ∧ isDigit (digitChar k) = true
+  | 0, _ => by decide | 1, _ => by decide | 2, _ => by decide | 3, _ => by decide | 4, _ => by decide
+  | 5, _ => by decide | 6, _ => by decide | 7, _ => by decide | 8, _ => by decide | 9, _ => by decide
+  | k + 10, h => by omega
+
+theorem foldl_dec (cs : List Char) (a : Nat) :
+    cs.foldl (fun a c => 10 * a + (c.toNat - 48)) a = a * 10 ^ cs.length + parseDigits cs := by
+  unfold parseDigits
+  induction cs generalizing a with
+  | nil => simp
+  | cons x xs ih =>
+    simp only [List.foldl_cons, List.length_cons]
+    rw [ih (10 * a + (x.toNat - 48)), ih (10 * 0 + (x.toNat - 48))]
+    simp only [Nat.mul_zero, Nat.zero_add, Nat.pow_succ]
+    rw [Nat.add_mul, Nat.add_assoc]
+    congr 1
+    rw [Nat.mul_comm 10 a, Nat.mul_assoc, Nat.mul_comm 10]
+
+theorem parseDigits_cons (x : Char) (xs : List Char) :
+    parseDigits (x :: xs) = (x.toNat - 48) * 10 ^ xs.length + parseDigits xs := by
+  have := foldl_dec xs (10 * 0 + (x.toNat - 48))
+  simpa [parseDigits] using this
+
+theorem natDigitsAux_spec : ∀ (fuel n : Nat) (acc : List Char), n < fuel →
+    parseDigits (natDigitsAux fuel n acc) = n * 10 ^ acc.length + parseDigits acc
+  | 0, _, _, h => by omega
+  | fuel + 1, n, acc, h => by
+    unfold natDigitsAux
+    have hd := (digitChar_spec (n % 10) (Nat.mod_lt _ (by decide))).1
+    by_cases h10 : n < 10
+    · simp only [h10, ↓reduceIte, parseDigits_cons, hd]
+      rw [Nat.mod_eq_of_lt h10]
+    · simp only [h10, ↓reduceIte]
+      rw [natDigitsAux_spec fuel (n / 10) _ (by omega)]
+      simp only [List.length_cons, parseDigits_cons, hd, Nat.pow_succ]
+      have : n = n / 10 * 10 + n % 10 := by omega
+      generalize 10 ^ acc.length = P
+      generalize parseDigits acc = Q
+      calc n / 10 * (P * 10) + (n % 10 * P + Q) = (n / 10 * 10 + n % 10) * P + Q := by
+              rw [Nat.add_mul, Nat.mul_comm P 10, ← Nat.mul_assoc, Nat.add_assoc]
+        _ = n * P + Q := by rw [← this]
+
+theorem parseDigits_natDigits (n : Nat) : parseDigits (natDigits n) = n := by
+  unfold natDigits
+  rw [natDigitsAux_spec _ _ _ (by omega)]
+  simp [parseDigits]
+
+theorem natDigitsAux_digits : ∀ (fuel n : Nat) (acc : List Char), (∀ c ∈ acc, isDigit c = true) →
+    ∀ c ∈ natDigitsAux fuel n acc, isDigit c = true
+  | 0, _, _, h => by simpa [natDigitsAux] using h
+  | fuel + 1, n, acc, h => by
+    unfold natDigitsAux
+    have hd := (digitChar_spec (n % 10) (Nat.mod_lt _ (by decide))).2
+    have h' : ∀ c ∈ digitChar (n % 10) :: acc, isDigit c = true := by
+      intro c hc
+      rcases List.mem_cons.mp hc with rfl | hc
+      · exact hd
+      · exact h c hc
+    by_cases h10 : n < 10
+    · simpa only [h10, ↓reduceIte] using h'
+    · simp only [h10, ↓reduceIte]
+      exact natDigitsAux_digits fuel (n / 10) _ h'
+
+theorem natDigitsAux_ne_nil : ∀ (fuel n : Nat) (acc : List Char), acc ≠ [] → natDigitsAux fuel n acc ≠ []
+  | 0, _, _, h => by simpa [natDigitsAux] using h
+  | fuel + 1, n, acc, _ => by
+    unfold natDigitsAux
+    by_cases h10 : n < 10
+    · simp [h10]
+    · simp only [h10, ↓reduceIte]
+      exact natDigitsAux_ne_nil fuel (n / 10) _ (by simp)
+
+theorem natDigits_digits (n : Nat) : ∀ c ∈ natDigits n, isDigit c = true :=
+  natDigitsAux_digits _ _ [] (by simp)
+
+theorem natDigits_ne_nil (n : Nat) : natDigits n ≠ [] := by
+  unfold natDigits natDigitsAux
+  by_cases h10 : n < 10
+  · simp [h10]
+  · simp only [h10, ↓reduceIte]
+    exact natDigitsAux_ne_nil _ _ _ (by simp)
+
+
+theorem code_nondigit (c : Currency) : ∀ ch ∈ c.code, (!isDigit ch) = true := by
+  cases c <;> decide
+
+theorem code_ne_nil (c : Currency) : c.code.isEmpty = false := by cases c <;> rfl
+
+theorem ofCode_code (c : Currency) : Currency.ofCode c.code = some c := by cases c <;> decide
+
+theorem letter_nondigit (p : SiPrefix) : isDigit p.letter = false := by cases p <;> decide
+
+theorem ofLetter_letter (p : SiPrefix) : SiPrefix.ofLetter p.letter = some p := by cases p <;> decide
+
+theorem digits_head (n : Nat) : ∃ d ds, natDigits n = d :: ds ∧ isDigit d = true := by
+  match h : natDigits n with
+  | [] => exact absurd h (natDigits_ne_nil n)
+  | d :: ds => exact ⟨d, ds, rfl, natDigits_digits n d (by rw [h]; simp)⟩
+
+/-- parsing the HRP text of a (currency, amount, SI prefix) triple gives the triple back -/
+theorem parseHrp_toChars_some (c : Currency) (raw : Nat) (p : SiPrefix) (h1 : raw ≤ u64Max)
+    (h2 : raw * p.multiplier ≤ u64Max) :
+    parseHrp (RawHrp.toChars ⟨c, some raw, some p⟩) = .ok ⟨c, some raw, some p⟩ := by
+  obtain ⟨d, ds, hd, hdd⟩ := digits_head raw
+  have hdig := natDigits_digits raw
+  have hnd : ∀ a ∈ natDigits raw, isDigit a = true := hdig
+  have tw1 : List.takeWhile (fun ch => !isDigit ch) (c.code ++ (natDigits raw ++ [p.letter])) = c.code := by
+    rw [List.takeWhile_append_of_pos (code_nondigit c), hd, List.cons_append,
+      List.takeWhile_cons_of_neg (by simp [hdd])]
+    simp
+  have dw1 : List.dropWhile (fun ch => !isDigit ch) (c.code ++ (natDigits raw ++ [p.letter])) = natDigits raw ++ [p.letter] := by
+    rw [List.dropWhile_append_of_pos (code_nondigit c), hd, List.cons_append,
+      List.dropWhile_cons_of_neg (by simp [hdd])]
+  have tw2 : List.takeWhile isDigit (natDigits raw ++ [p.letter]) = natDigits raw := by
+    rw [List.takeWhile_append_of_pos hnd, List.takeWhile_cons_of_neg (by simp [letter_nondigit])]
+    simp
+  have dw2 : List.dropWhile isDigit (natDigits raw ++ [p.letter]) = [p.letter] := by
+    rw [List.dropWhile_append_of_pos hnd, List.dropWhile_cons_of_neg (by simp [letter_nondigit])]
+  have hne : (c.code ++ (natDigits raw ++ [p.letter])).isEmpty = false := by
+    cases c <;> simp [Currency.code]
+  have hnum : (natDigits raw).isEmpty = false := by rw [hd]; rfl
+  have e : RawHrp.toChars ⟨c, some raw, some p⟩ = 'l' :: 'n' :: (c.code ++ (natDigits raw ++ [p.letter])) := by
+    simp [RawHrp.toChars]
+  rw [e]
+  simp only [parseHrp, ne_eq, not_true_eq_false, ↓reduceIte, hne, Bool.false_eq_true, tw1, dw1, tw2, dw2,
+    hnum, ofLetter_letter, List.isEmpty_nil, ofCode_code, parseDigits_natDigits]
+  have a1 : ¬ raw > u64Max := by omega
+  have a2 : ¬ raw * p.multiplier > u64Max := by omega
+  simp [a1, a2]
+
+theorem parseHrp_toChars_none (c : Currency) :
+    parseHrp (RawHrp.toChars ⟨c, none, none⟩) = .ok ⟨c, none, none⟩ := by
+  cases c <;> rfl
+
 end Ldk.Bolt11
